@@ -577,6 +577,7 @@ def run(chk, F):
     rule_r3(chk, F, cg)
     rule_r4(chk, F)
     rule_r6(chk, F, c, cg)
+    rule_r7(chk, F, c)
     # clause (d): address-keyed tables re-hash before use after a collection — same engine as C09.R4
     from rules import c09
     c09.rule_r4(chk, c, cg, rid="C03.R5")
@@ -586,3 +587,82 @@ def run(chk, F):
         "call graph is conservative: dyn/trait calls expand to all workspace impls; closure creation counts as a call",
         "GC-internal modules (gc/**, snapshot) run with the world stopped and are out of scope of R2",
     ]
+
+
+def rule_r7(chk, F, c):
+    """C03.R7: the minor collector's copy path allocates an object's new location either from the worker's local
+    allocation buffer (small objects) or directly from the generation (mid-sized ones), decided by a size threshold;
+    when the worker loses the race for the forwarding pointer it *undoes* the allocation — by rewinding the buffer's top
+    or by overwriting the copy with a filler.  Rewinding the buffer for an object that was never taken from it moves
+    `top` below objects already copied in this collection (they are overwritten by later copies).  So every branch that
+    leads to the buffer rewind must be taken under the same threshold as the branch that leads to the buffer
+    allocation.  The buffer type, its allocate/rewind methods and the thresholds are derived."""
+    r = chk.rule("C03.R7", "minor collection: the branch that rewinds a worker's allocation buffer (undo of a lost copy) "
+                           "is taken under the same size threshold as the branch that allocates from that buffer")
+    mod = "dora_runtime::gc::swiper::minor::"
+    fns = {p: b for p, b in c.hir.items() if p.startswith(mod)}
+    if not r.anchor("gc/swiper/minor.rs functions", fns):
+        return
+    # the buffer: the type with a method that subtracts from its own `top` field (rewind) and one that adds (bump)
+    rewind, bump = None, None
+    for p, b in fns.items():
+        for n in hirq.walk(b["body"]):
+            if n[0] == "assign" and hirq.is_node(n[1]) and n[1][0] == "field" and n[1][2] == "top":
+                txt = hirq.render(n[2])
+                if " Sub " in txt and rewind is None and "size" in txt:
+                    rewind = p
+        if last(p) == "allocate" and "Lab" in p:
+            bump = p
+    if not (r.anchor("buffer rewind method (assigns top - size)", rewind) and
+            r.anchor("buffer allocation method (Lab::allocate)", bump)):
+        return
+
+    def reaches(body, target, depth=0, seen=None):
+        seen = seen if seen is not None else set()
+        for n in hirq.walk(body):
+            callee = None
+            if n[0] == "mcall" and n[2]:
+                callee = n[2]
+            elif n[0] == "call" and hirq.is_node(n[2]) and n[2][:2] == ["def", "fn"]:
+                callee = n[2][2]
+            if callee is None:
+                continue
+            if callee == target:
+                return True
+            if callee in fns and callee not in seen and depth < 3:
+                seen.add(callee)
+                if reaches(fns[callee]["body"], target, depth + 1, seen):
+                    return True
+        return False
+
+    th = {"alloc": {}, "undo": {}}
+    for p, b in sorted(fns.items()):
+        for n in hirq.walk(b["body"]):
+            if n[0] != "if" or n[1][0] == "letx":
+                continue
+            cond = hirq.strip(n[1])
+            if not (hirq.is_node(cond) and cond[0] == "bin" and cond[1] in ("Lt", "Le")):
+                continue
+            rhs = hirq.strip(cond[3])
+            if not (hirq.is_node(rhs) and rhs[0] == "def" and rhs[1] == "const"):
+                continue
+            for kind, target in (("alloc", bump), ("undo", rewind)):
+                if n[2] is not None and reaches(n[2], target):
+                    th[kind].setdefault(last(rhs[2]), []).append(p)
+    for kind in ("alloc", "undo"):
+        for k, ps in sorted(th[kind].items()):
+            for p in ps:
+                r.instance("%s:%s:%s" % (kind, p, k), sample={"branch_to": kind, "function": last(p), "threshold": k})
+    r.floor("threshold branches leading to the buffer allocation", sum(len(v) for v in th["alloc"].values()), 2)
+    r.floor("threshold branches leading to the buffer rewind", sum(len(v) for v in th["undo"].values()), 1)
+    a, u = set(th["alloc"]), set(th["undo"])
+    if a and u and a != u:
+        for k in sorted(u - a):
+            for p in th["undo"][k]:
+                r.violation("%s:rewind-under:%s:allocation-under:%s" % (p, k, "|".join(sorted(a))),
+                            "%s rewinds the worker's allocation buffer for objects below %s, but the buffer is only "
+                            "used for objects below %s: a mid-sized object that lost the forwarding race was allocated "
+                            "directly from the generation, and rewinding the buffer by its size moves `top` below "
+                            "objects already copied in this collection (later copies overwrite them; with no buffer "
+                            "yet, `top` underflows)" % (last(p), k, "/".join(sorted(a))),
+                            "%s:%d" % (fns[p]["file"], fns[p]["line"]))
